@@ -264,6 +264,22 @@ class Env:
         else:
             Flag, Tracked, Lock, Queue, Channel, Capacities, Resources, Pipe, UnboundedPipe = \
                 _LIBRARY_CLASSES
+        if spec.get('cloned'):
+            # the program makes its primitives by cloning template objects (a model component
+            # that is deep-copied per node / per replication): clones are objects of their own
+            import copy
+
+            def cloning(cls):
+                templates = {}
+
+                def make(*args, **kwargs):
+                    key = repr((args, sorted(kwargs.items())))
+                    if key not in templates:
+                        templates[key] = cls(*args, **kwargs)
+                    return copy.deepcopy(templates[key])
+                return make
+            Flag, Lock, Queue, Channel, Pipe, UnboundedPipe = map(
+                cloning, (Flag, Lock, Queue, Channel, Pipe, UnboundedPipe))
         obj['flags'] = []
         for _ in range(spec.get('flags', 0)):
             obj['flags'].append(Flag())
@@ -628,6 +644,9 @@ async def _activity(env, ctx, spec):
     except BaseException as exc:  # noqa: B902
         env.log(ctx.name, 'fail', exc_name(exc) if not isinstance(
             exc, (Interrupt, GeneratorExit)) else type(exc).__name__)
+        # (a task that was started and is failed, cancelled or forcefully closed is done when
+        # this activation is over - `task.done` holds from then on)
+        env.shadow['done'][spec['name']] = True
         if ctx.parent_key is not None and env.sess.armed and env.sess.stack:
             info = env.scope_inst.get(ctx.parent_key)
             if info is not None:
@@ -842,8 +861,10 @@ async def op_close(env, ctx, step):
 async def op_borrow(env, ctx, step):
     res = env.objects['resources'][step['r']]
     block = res.claim(**step['amounts']) if step.get('claim') else res.borrow(**step['amounts'])
+    entered = False
     try:
         async with block as inner:
+            entered = True
             env.log(ctx.name, 'borrow-held', step.get('id'))
             try:
                 if step.get('nested'):
@@ -854,6 +875,8 @@ async def op_borrow(env, ctx, step):
             finally:
                 env.log(ctx.name, 'borrow-leaving', step.get('id'))
     except ResourcesUnavailable:
+        if entered:
+            raise       # (raised by the program's own steps inside the block: not a refusal)
         return 'unavailable'
     return 'ok'
 
@@ -1133,6 +1156,12 @@ def scope_exit_monitor(env, ctx, key, scope, body_exc, outer_exc):
                 sess.violation('c05:body-exception-replaced',
                                'block %s: the body ended with %s but the block ended with %s'
                                % (key, describe(body_exc), describe(outer_exc)))
+                if isinstance(body_exc, CancelTask):
+                    # C06: the cancellation is raised inside the task and its awaiters get
+                    # TaskCancelled - a block of the task that it unwinds must hand it on
+                    sess.violation('c06:cancellation-replaced-by-block',
+                                   'block %s: the cancellation of the task that struck its body '
+                                   'left the block as %s' % (key, describe(outer_exc)))
         # promptness: the block ends at the virtual time of the first failure
         times = [end[4] for end in failures
                  if end[2] is not None and not isinstance(end[2](), suppressed_types)]
